@@ -252,7 +252,9 @@ def StageReference(dataReference,  # type: experiment.model.graph.DataReference
                     if f.issym() or f.islnk():
                         # VV: symbolic links are relative to the directory of the member, hard links to the root
                         # of the archive. Refuse links that point outside the destination.
-                        linkRoot = os.path.dirname(newPath.rstrip(os.path.sep)) if f.issym() else target
+                        # (the directory the member is created in: an entry of the same name that already exists and
+                        # is a link itself must not be followed, tarfile replaces it)
+                        linkRoot = os.path.realpath(os.path.dirname(os.path.join(target, f.name))) if f.issym() else target
                         relTarget = os.path.join(os.path.dirname(f.name), f.linkname) if f.issym() else f.linkname
                         if through_archive_link(os.path.join(relTarget, '')) or (
                                 f.islnk() and os.path.normpath(relTarget) in archive_links):
